@@ -203,6 +203,14 @@ def r4_contiguous(ctx: Ctx, sp: FuncInfo) -> None:
             if isinstance(tv, (ast.Tuple, ast.List)) and tv.elts and all(isinstance(e_, ast.Call) and dotted(e_.func) == 're.compile' and e_.args for e_ in tv.elts):
                 subs += [(c, e_.args[0], c.args[0], c.args[1]) for e_ in tv.elts]
                 continue
+            # … the same written as  tuple(re.compile(p) for p in (<literals>))
+            if isinstance(tv, ast.Call) and isinstance(tv.func, ast.Name) and tv.func.id in ('tuple', 'list') and len(tv.args) == 1 and isinstance(tv.args[0], (ast.GeneratorExp, ast.ListComp)):
+                ge = tv.args[0]
+                if isinstance(ge.elt, ast.Call) and dotted(ge.elt.func) == 're.compile' and len(ge.elt.args) == 1 and isinstance(ge.elt.args[0], ast.Name) and len(ge.generators) == 1 \
+                        and isinstance(ge.generators[0].target, ast.Name) and ge.generators[0].target.id == ge.elt.args[0].id and not ge.generators[0].ifs \
+                        and isinstance(ge.generators[0].iter, (ast.Tuple, ast.List)) and all(isinstance(x_, ast.Constant) and isinstance(x_.value, str) for x_ in ge.generators[0].iter.elts):
+                    subs += [(c, x_, c.args[0], c.args[1]) for x_ in ge.generators[0].iter.elts]
+                    continue
         subs.append((c, None, None, None))
     for c, pat_, repl_, subj_ in subs:
         if pat_ is not None:
